@@ -26,7 +26,8 @@ TRUSTED = [
 STR_POOL = ["a", "b", "1", "2", "-3", "007", "True", "False", "nan", "NaN", "now", "", "é", "日本", "x y", " lead",
             "0.7", ".7", "1e5", "2020-01-01", "1_0", "+1", "a.b", "a-b", "None", "inf", "1.0", "0x10", "t", "T",
             "2020-01-01T00:00:00", "1 days", "A" * 30, "\U0001F600", "-", "null", "0", "1.5", "TRUE", "#", "a%20b",
-            "a*b", "[x]", "q?", "a:b", "tab\tx", "~", "a b ", "-inf", "1e400"]
+            "a*b", "[x]", "q?", "a:b", "tab\tx", "~", "a b ", "-inf", "1e400",
+            "B", "\u00e9t\u00e9", "e\u0301te\u0301", "x ", "x", "\u212b", "\u00c5", "ss", "\u00df", "I", "\u0131"]      # case / normalisation / whitespace pairs
 ADVERSARIAL = STR_POOL + ["true", " 7 ", "7 ", "\t7", "1__0", "_1", "1_", "--1", "+-1", "1e", "e5", "1.", "-.5e-3",
                           "Infinity", "-inf", "0b1", "12abc", "2020-13-01", "20200101_120000.000000",
                           "20200101_120000.5", "2020-01-01 01:02:03.5", "2020-01-01T01:02:03.000000005",
@@ -344,9 +345,11 @@ def gen_column(rng, kind, n, drill):
         return pd.Series(np.array([rng.choice(vals) for _ in range(n)], dtype=bool))
     if kind == "float":
         dt = rng.choice(["float64", "float64", "float32"])
-        pool = [0.5, 1.0, -2.25, 0.1, 1e22, 1e-7, 3.0, 123456.125, float("inf"), 0.0, 1e16, 2.5e-10]
+        pool = [0.5, 1.0, -2.25, 0.1, 1e22, 1e-7, 3.0, 123456.125, float("inf"), 0.0, 1e16, 2.5e-10,
+                0.30000000000000004, 1 / 3, 9007199254740993.0, 1.7976931348623157e308, 5e-324, 1234567.890123456, -float("inf")]
         vals = rng.sample(pool, card) + ([float("nan")] if nulls else [])
-        return pd.Series(np.array([rng.choice(vals) for _ in range(n)], dtype=dt))
+        with np.errstate(over="ignore"):       # float32 columns may hold inf for the largest doubles
+            return pd.Series(np.array([rng.choice(vals) for _ in range(n)], dtype=dt))
     if kind == "time":
         unit = rng.choice(["ns", "us", "ms", "s"])
         mult = {"s": 1, "ms": 10**3, "us": 10**6, "ns": 10**9}[unit]
